@@ -1,6 +1,337 @@
 package main
 
-func checkWaitAndShutdown(c *Ctx, p *Prog, R *BusRoles) {}
+import (
+	"go/token"
+	"go/types"
+	"strings"
 
-func checkAsyncSequencing(c *Ctx, p *Prog, R *BusRoles)      {}
-func checkHandlerCtxProvenance(c *Ctx, p *Prog, R *BusRoles) {}
+	"golang.org/x/tools/go/ssa"
+)
+
+// checkAsyncSequencing (C07.R3): necessary condition for Async+Sequential to preserve
+// publish order — the publisher's goroutine must record the order in shared state before
+// Publish returns (a channel send, an atomic read-modify-write, or a store under a held
+// mutex, reachable from the registration or the bus). WaitGroup.Add carries a count,
+// not an order; a fresh goroutine per event that merely contends for a sync.Mutex does
+// not order anything (sync.Mutex is not FIFO and goroutine start order is unspecified).
+func checkAsyncSequencing(c *Ctx, p *Prog, R *BusRoles) {
+	f := R.PublishFn
+	n := 0
+	for _, b := range f.Blocks {
+		for _, in := range b.Instrs {
+			g, ok := in.(*ssa.Go)
+			if !ok {
+				continue
+			}
+			n++
+			// the async arm: the go statement's block and its single-predecessor chain up
+			// to the test of the async flag
+			var arm []*ssa.BasicBlock
+			for blk := b; blk != nil; {
+				arm = append(arm, blk)
+				if len(blk.Preds) != 1 {
+					break
+				}
+				pr := blk.Preds[0]
+				if iff, ok := pr.Instrs[len(pr.Instrs)-1].(*ssa.If); ok {
+					if tn, fld, _, ok := fieldLoad(iff.Cond); ok && tn == R.RegName() && fld == R.RegAsync {
+						break
+					}
+				}
+				blk = pr
+			}
+			found := ""
+			for _, blk := range arm {
+				for _, x := range blk.Instrs {
+					switch y := x.(type) {
+					case *ssa.Send:
+						found = "channel send"
+					case ssa.CallInstruction:
+						if name, addr, ok := atomicOp(x); ok && (strings.HasPrefix(name, "Add") || strings.HasPrefix(name, "Swap") || strings.HasPrefix(name, "CompareAndSwap")) {
+							if tn, fld, _, ok := fieldOfAddr(addr); ok && !(tn == R.RegName() && fld == R.RegClaim) {
+								found = "atomic " + name + " on " + tn + "." + fld
+							}
+						}
+						if kind, mu, ok := mutexOp(y.Common()); ok && kind == "Lock" {
+							if tn, fld, _, ok := fieldOfAddr(mu); ok {
+								found = "critical section on " + tn + "." + fld
+							}
+						}
+					}
+				}
+			}
+			// the goroutine is handed an order token? (an argument other than the registration)
+			construct := "PublishContext/async-dispatch/publisher-side-sequencing"
+			if found != "" {
+				c.Discharge("C07.R3", construct, p.Pos(g.Pos()), "publisher-side sequencing effect present: "+found+" (its correctness is not decided)")
+			} else {
+				c.Violate("C07.R3", construct, p.Pos(g.Pos()), "async dispatch starts one goroutine per event and records nothing about the publish order in the publisher's goroutine (only WaitGroup.Add, which carries a count): an Async+Sequential handler processes events of one publisher in whatever order the goroutines win its mutex, not in publish order (README: 'preserves order')", nil)
+			}
+		}
+	}
+	if n == 0 {
+		c.Unresolved("C07.R3", "UNRESOLVED-ANCHOR/PublishContext/async-go", "no go statement found in PublishContext")
+	}
+}
+
+// checkHandlerCtxProvenance (C08.R2): the context given to context-aware handler arms
+// originates from PublishContext's ctx parameter, possibly passed through the
+// Observability start callbacks; never context.Background()/TODO().
+func checkHandlerCtxProvenance(c *Ctx, p *Prog, R *BusRoles) {
+	e := NewEngine(p)
+	flow := NewFlow(p, e.cells)
+	flow.Through["invoke:Observability.OnHandlerStart"] = []int{0}
+	flow.Through["invoke:Observability.OnPublishStart"] = []int{0}
+	ev := &busEvents{R: R, E: e}
+	n := 0
+	var check func(f *ssa.Function)
+	seen := map[*ssa.Function]bool{}
+	check = func(f *ssa.Function) {
+		if f == nil || seen[f] {
+			return
+		}
+		seen[f] = true
+		for _, b := range f.Blocks {
+			for _, in := range b.Instrs {
+				ci, ok := in.(ssa.CallInstruction)
+				if !ok {
+					continue
+				}
+				if sc := ci.Common().StaticCallee(); sc != nil && PkgOf(sc) == PkgBus {
+					if o := sc.Origin(); o != nil {
+						sc = o
+					}
+					check(sc)
+				}
+				if _, _, ok := ev.handlerInvoke(nil, in); !ok {
+					continue
+				}
+				for _, a := range ci.Common().Args {
+					v := a
+					// reflect arm: reflect.ValueOf(ctx)
+					if call, ok := stripConv(a).(*ssa.Call); ok && calleeName(call.Common()) == "reflect.ValueOf" {
+						v = call.Common().Args[0]
+					}
+					if !isNamed(stripConv(v).Type(), "context", "Context") && !isNamed(v.Type(), "context", "Context") {
+						continue
+					}
+					n++
+					os := flow.Origins(v)
+					okAll, bad := onlyOrigins(os, "param:"+FuncDisplay(f)+".ctx", "param:"+FuncDisplay(R.DispatchFn)+".")
+					construct := FuncDisplay(f) + "/handler-context@" + p.Pos(in.Pos())
+					if okAll && len(os) > 0 {
+						c.Discharge("C08.R2", construct, p.Pos(in.Pos()), "handler context originates from the dispatch function's ctx parameter (through Observability.OnHandlerStart only)")
+					} else {
+						c.Violate("C08.R2", construct, p.Pos(in.Pos()), "a context-aware handler receives a context that does not (only) descend from the publish context (origin "+bad+"): values and cancellation of the publisher's context are lost", nil)
+					}
+				}
+			}
+		}
+	}
+	check(R.DispatchFn)
+	c.Floor("C08.R2", "context arguments of handler invocations", n, 4)
+	// the dispatch function's ctx argument at each call site in PublishContext is the publish context
+	m := 0
+	var scan func(g *ssa.Function)
+	scan = func(g *ssa.Function) {
+		for _, b := range g.Blocks {
+			for _, in := range b.Instrs {
+				if call, ok := in.(*ssa.Call); ok {
+					if sc := call.Common().StaticCallee(); sc != nil && (sc == R.DispatchFn || sc.Origin() == R.DispatchFn) && len(call.Common().Args) >= 2 {
+						m++
+						os := flow.Origins(call.Common().Args[1])
+						okAll, bad := onlyOrigins(os, "param:PublishContext.ctx")
+						if okAll && len(os) > 0 {
+							c.Discharge("C08.R2", FuncDisplay(g)+"/dispatch-context", p.Pos(in.Pos()), "the dispatch function receives the publish context (through Observability.OnPublishStart only)")
+						} else {
+							c.Violate("C08.R2", FuncDisplay(g)+"/dispatch-context", p.Pos(in.Pos()), "the dispatch function is not given the publish context (origin "+bad+")", nil)
+						}
+					}
+				}
+			}
+		}
+		for _, a := range g.AnonFuncs {
+			scan(a)
+		}
+	}
+	scan(R.PublishFn)
+	c.Floor("C08.R2", "dispatch call sites", m, 2)
+	// Publish delegates to PublishContext with a background context (documented)
+}
+
+// checkWaitAndShutdown (C06.R3, C06.R4).
+func checkWaitAndShutdown(c *Ctx, p *Prog, R *BusRoles) {
+	// R3: Wait waits on the bus wait group
+	if w := p.Method(PkgBus, "EventBus", "Wait"); w != nil {
+		ok := false
+		for _, b := range w.Blocks {
+			for _, in := range b.Instrs {
+				if ci, isCall := in.(ssa.CallInstruction); isCall {
+					if kind, wg, isWg := wgOp(ci.Common()); isWg && kind == "Wait" {
+						if tn, fld, base, isF := fieldOfAddr(wg); isF && tn == "EventBus" && fld == R.BusWG {
+							if prm, isP := stripConv(base).(*ssa.Parameter); isP && prm == w.Params[0] {
+								ok = true
+							}
+						}
+					}
+				}
+			}
+		}
+		c.Check(ok, "C06.R3", "EventBus.Wait/waits-on-the-publishers-wait-group", p.Pos(w.Pos()), "Wait() blocks on the same wait-group field PublishContext counts on", "Wait does not wait on the wait group the publisher counts async handlers on")
+	} else {
+		c.Unresolved("C06.R3", "UNRESOLVED-ANCHOR/EventBus.Wait", "method not found")
+	}
+	sd := p.Method(PkgBus, "EventBus", "Shutdown")
+	if sd == nil {
+		c.Unresolved("C06.R4", "UNRESOLVED-ANCHOR/EventBus.Shutdown", "method not found")
+		return
+	}
+	// the select in Shutdown
+	var sel *ssa.Select
+	for _, b := range sd.Blocks {
+		for _, in := range b.Instrs {
+			if s, ok := in.(*ssa.Select); ok && s.Blocking {
+				sel = s
+			}
+		}
+	}
+	if sel == nil {
+		c.Violate("C06.R4", "Shutdown/select", p.Pos(sd.Pos()), "Shutdown does not select between completion and the context", nil)
+		return
+	}
+	ctxIdx, doneIdx := -1, -1
+	var doneChan ssa.Value
+	for i, st := range sel.States {
+		if st.Dir != types.RecvOnly {
+			continue
+		}
+		if call, ok := st.Chan.(*ssa.Call); ok && call.Common().IsInvoke() && call.Common().Method.Name() == "Done" && stripConv(call.Common().Value) == ssa.Value(sd.Params[1]) {
+			ctxIdx = i
+		} else {
+			doneIdx = i
+			doneChan = st.Chan
+		}
+	}
+	if ctxIdx < 0 || doneIdx < 0 {
+		c.Violate("C06.R4", "Shutdown/select-arms", p.Pos(sel.Pos()), "Shutdown's select does not have a completion arm and a ctx.Done() arm", nil)
+		return
+	}
+	// arm entry blocks
+	armBlock := func(idx int) *ssa.BasicBlock {
+		for _, b := range sd.Blocks {
+			if iff, ok := b.Instrs[len(b.Instrs)-1].(*ssa.If); ok {
+				if s, k, ok := selectArm(iff.Cond); ok && s == sel && k == idx {
+					return b.Succs[0]
+				}
+			}
+		}
+		return nil
+	}
+	doneBlk, ctxBlk := armBlock(doneIdx), armBlock(ctxIdx)
+	if doneBlk == nil || ctxBlk == nil {
+		c.Unresolved("C06.R4", "Shutdown/select-arms", "cannot find the arm blocks of Shutdown's select")
+		return
+	}
+	// (a) the completion channel is closed / sent on only after Wait() returned, in the waiter goroutine
+	okSignal := false
+	var waiter *ssa.Function
+	for _, a := range sd.AnonFuncs {
+		var waitIn, sigIn ssa.Instruction
+		for _, b := range a.Blocks {
+			for _, in := range b.Instrs {
+				if ci, ok := in.(ssa.CallInstruction); ok {
+					if sc := ci.Common().StaticCallee(); sc != nil && sc.Name() == "Wait" && recvTypeName(sc) == "EventBus" {
+						waitIn = in
+					}
+					if kind, wg, ok := wgOp(ci.Common()); ok && kind == "Wait" {
+						if tn, fld, _, ok := fieldOfAddr(wg); ok && tn == "EventBus" && fld == R.BusWG {
+							waitIn = in
+						}
+					}
+					if bi, ok := ci.Common().Value.(*ssa.Builtin); ok && bi.Name() == "close" {
+						sigIn = in
+					}
+				}
+				if _, ok := in.(*ssa.Send); ok {
+					sigIn = in
+				}
+			}
+		}
+		if waitIn != nil && sigIn != nil {
+			waiter = a
+			okSignal = reaches(waitIn, sigIn) && !reaches(sigIn, waitIn) && (waitIn.Block() == sigIn.Block() || waitIn.Block().Dominates(sigIn.Block()))
+		}
+	}
+	c.Check(okSignal, "C06.R4", "Shutdown/completion-signalled-after-Wait", p.Pos(sd.Pos()), "the completion channel is signalled only after Wait() returned", "the completion channel can be signalled before Wait() has returned (or no waiter goroutine exists): Shutdown can return nil while async handlers are still running")
+	_ = doneChan
+	// (b) Close() of the store only on the completion arm of Shutdown's own select
+	n := 0
+	var scan func(g *ssa.Function, inWaiter bool)
+	scan = func(g *ssa.Function, inWaiter bool) {
+		for _, b := range g.Blocks {
+			for _, in := range b.Instrs {
+				ci, ok := in.(ssa.CallInstruction)
+				if !ok || !ci.Common().IsInvoke() || ci.Common().Method.Name() != "Close" {
+					continue
+				}
+				n++
+				switch {
+				case g != sd:
+					c.Violate("C06.R4", "Shutdown/close-only-on-done-arm", p.Pos(in.Pos()), "the store is closed in "+FuncDisplay(g)+", outside Shutdown's select: when the context expires first Shutdown returns the context's error and the store is closed afterwards anyway (or twice on a retry)", nil)
+				case !(doneBlk == in.Block() || doneBlk.Dominates(in.Block())):
+					c.Violate("C06.R4", "Shutdown/close-only-on-done-arm", p.Pos(in.Pos()), "the store's Close is reachable outside the completion arm of Shutdown's select", nil)
+				default:
+					c.Discharge("C06.R4", "Shutdown/close-only-on-done-arm", p.Pos(in.Pos()), "Close is dominated by the completion arm")
+					// its error is returned
+					retd := false
+					if call, ok := in.(*ssa.Call); ok {
+						for _, ref := range *call.Referrers() {
+							if bo, ok := ref.(*ssa.BinOp); ok {
+								if _, _, ok := nilTest(bo); ok {
+									retd = true
+								}
+							}
+						}
+					}
+					c.Check(retd, "C06.R4", "Shutdown/close-error-returned", p.Pos(in.Pos()), "a Close error is tested and returned", "the error returned by the store's Close is dropped")
+				}
+			}
+		}
+		for _, a := range g.AnonFuncs {
+			scan(a, inWaiter || a == waiter)
+		}
+	}
+	scan(sd, false)
+	c.Floor("C06.R4", "store Close call sites", n, 1)
+	// (c) return nil only on the completion arm; the ctx arm returns ctx.Err()
+	okRets := true
+	for _, ret := range returnsOf(sd) {
+		v := resolveResult(ret, 0)
+		onDone := doneBlk == ret.Block() || doneBlk.Dominates(ret.Block())
+		onCtx := ctxBlk == ret.Block() || ctxBlk.Dominates(ret.Block())
+		if k, ok := v.(*ssa.Const); ok && k.Value == nil {
+			if !onDone {
+				okRets = false
+				c.Violate("C06.R4", "Shutdown/nil-only-on-done-arm", p.Pos(ret.Pos()), "Shutdown returns nil outside the completion arm (e.g. when the context expired)", nil)
+			}
+		}
+		if onCtx {
+			call, isCall := stripConv(v).(*ssa.Call)
+			if !(isCall && call.Common().IsInvoke() && call.Common().Method.Name() == "Err" && stripConv(call.Common().Value) == ssa.Value(sd.Params[1])) {
+				okRets = false
+				c.Violate("C06.R4", "Shutdown/ctx-arm-returns-ctx-err", p.Pos(ret.Pos()), "the context arm does not return ctx.Err()", nil)
+			}
+		}
+		if onDone && !onCtx {
+			// a value received from the completion channel must not smuggle a Close done elsewhere: handled by (b)
+			if _, isRecv := stripConv(v).(*ssa.Extract); isRecv {
+				okRets = false
+				c.Violate("C06.R4", "Shutdown/done-arm-result", p.Pos(ret.Pos()), "Shutdown returns a value received from the waiter goroutine: the work that produced it (closing the store) ran outside the select", nil)
+			}
+		}
+	}
+	if okRets {
+		c.Discharge("C06.R4", "Shutdown/results", p.Pos(sd.Pos()), "nil only on the completion arm; the context arm returns ctx.Err()")
+	}
+	_ = token.NoPos
+}
